@@ -439,7 +439,8 @@ def check(prop, tier, seed, budget_s=None):
         max_worlds = getattr(mod, 'MAX_WORLDS', {}).get(tier)
         t0 = REAL_MONO()
         while True:
-            while len(inflight) < WORKERS * 2 and REAL_MONO() < deadline and (max_worlds is None or nxt < max_worlds):
+            min_worlds = getattr(mod, 'MIN_WORLDS', chunk * WORKERS)     # explored even if the budget is already spent
+            while len(inflight) < WORKERS * 2 and (REAL_MONO() < deadline or nxt < min_worlds) and (max_worlds is None or nxt < max_worlds):
                 inflight.add(pool.submit(_chunk_seeded, prop, tier, seed, nxt, nxt + chunk))
                 nxt += chunk
             if not inflight:
